@@ -51,6 +51,8 @@ type Node struct {
 	// to an order-preserving map). Two maps are compared as sequences only when
 	// both are Ordered.
 	Ordered bool
+	// Tag is a free annotation (ignored by Diff).
+	Tag string
 }
 
 func NullN() *Node             { return &Node{Kind: Null} }
